@@ -94,7 +94,26 @@ impl Prop for C08 {
             reenter_probe: true,
         };
         match run_lockstep(c, cmp, ctx) {
-            Ok(o) => {
+            Ok(mut o) => {
+                // whenever INPUT is reached the interpreter must ask: also right after a run that
+                // ended (normally or by failing while a reply was being stored)
+                if !o.capped && o.sess.state() == crate::sess::St::Idle {
+                    if let Some(call) = o.sess.apply(&crate::sess::Op::Line("INPUT Q9".into())) {
+                        ctx.calls(1);
+                        if let Some(p) = call.panicked() {
+                            return Some(Violation::new("C08/panic", format!("panic@{p}"), format!("immediate INPUT after the run unwound: {p}")));
+                        }
+                        let recs: Vec<_> = call.recs.iter().filter(|r| !matches!(r, crate::sess::Rec::Trace(_))).collect();
+                        if call.state != crate::sess::St::Awaiting || !recs.is_empty() {
+                            return Some(Violation::new(
+                                "C08/input-did-not-ask",
+                                format!("state={:?} after the run ended with {:?}", call.state, o.error),
+                                format!("an immediate INPUT after the run (which ended with {:?}) did not ask: state {:?}, records {:?}, error {:?}", o.error, call.state, call.recs, call.err()),
+                            ));
+                        }
+                        ctx.count("reach.post_run_input_asks");
+                    }
+                }
                 if o.inputs_answered > 0 {
                     ctx.count("reach.input_answered");
                     if let Some(h) = nontrivial_hash(c, &o) {
